@@ -28,7 +28,10 @@ def main():
     ap.add_argument('--tier', default='quick')
     ap.add_argument('--demo')
     ap.add_argument('--json')
+    ap.add_argument('--repo', default='/repo', help='checkout to patch (default /repo; a scratch worktree may be given)')
     args = ap.parse_args()
+    global REPO
+    REPO = args.repo
     rc, out = sh('git status --porcelain', cwd=REPO)
     if out.strip():
         print('refusing: /repo is not clean:\n' + out)
@@ -53,7 +56,7 @@ def main():
         for pid in [p for p in args.props.split(',') if p]:
             t0 = time.time()
             try:
-                rc, out = sh('./check %s --tier %s --no-evidence' % (pid, args.tier), cwd=VERIF, timeout=2400)
+                rc, out = sh('VERIF_REPO=%s ./check %s --tier %s --no-evidence' % (REPO, pid, args.tier), cwd=VERIF, timeout=2400)
             except subprocess.TimeoutExpired:
                 sh("pkill -9 -f 'vf.cli %s' || true" % pid)
                 rc, out = 124, 'timeout'
